@@ -7,6 +7,7 @@ mod json;
 mod mon;
 mod verbs;
 mod verbs_assets;
+mod verbs_fault;
 mod verbs_mdl;
 
 use json::J;
